@@ -242,6 +242,14 @@ def r15_2(ctx, counts: dict[str, int]) -> RuleResult:
 def run(ctx) -> dict:
     counts: dict[str, int] = {}
     results = [r15_1(ctx, counts), r15_2(ctx, counts)]
+    # lookups over several maps/arrays must re-evaluate their key specifier for each of them
+    from .oneshot import one_shot_rule
+    r3 = one_shot_rule(ctx, 'R15.3', lambda f: f.module.name.startswith('elementpath.') and not
+                       f.module.name.startswith(('elementpath.regex', 'elementpath.datatypes')),
+                       counts)
+    if len(r3.instances) < 3:
+        raise AnalysisError(f'R15.3: only {len(r3.instances)} functions with one-shot bindings')
+    results.append(r3)
     return {
         'results': results, 'counts': counts,
         'explanation':
